@@ -7,7 +7,7 @@ import numpy
 import scipy.special as sp
 
 from .. import fixtures, monitor
-from ..core import digest
+from ..core import digest, scratch_dir
 
 META = {
     "title": "Number tests: exact inclusive tails",
@@ -278,7 +278,7 @@ def ex_e2e_catalog(ctx, sizes, n_obs, seed=0, pre_iterations=0, mutate=False, so
         import csep
         import tempfile
         from . import c12
-        tmpd = tempfile.mkdtemp(prefix="c07-", dir=os.environ.get("VERIF_TMP", "/var/tmp"))
+        tmpd = scratch_dir("c07-")
         path = os.path.join(tmpd, "fc.csv")
         rows = [[(e[0].decode(), int(e[1]), float(e[2]), float(e[3]), float(e[4]), float(e[5])) for e in c.catalog.tolist()] for c in cats]
         c12.write_file(path, rows, [source == "file"] * len(rows), bool(seed % 2), "frac")
